@@ -19,6 +19,8 @@ import (
 	"github.com/ohler55/ojg/alt"
 )
 
+var timeType = reflect.TypeOf(time.Time{})
+
 const (
 	spaces = "\n                                                                " +
 		"                                                                "
@@ -460,6 +462,12 @@ func appendSortObject(wr *Writer, n map[string]any, depth int) {
 }
 
 func (wr *Writer) appendStruct(rv reflect.Value, depth int, si *sinfo) {
+	if rv.Type() == timeType {
+		// A time.Time that is an element of a slice, array or map is a time
+		// as it is when it is a field, not a struct without fields.
+		wr.buf = wr.AppendTime(wr.buf, rv.Interface().(time.Time), true)
+		return
+	}
 	if si == nil {
 		si = getSinfo(rv.Interface(), wr.OmitEmpty)
 	}
